@@ -3,6 +3,7 @@ package checks
 import (
 	"encoding/json"
 	"fmt"
+	"github.com/trustbloc/sidetree-go/pkg/versions/1_0/operationparser"
 
 	"github.com/trustbloc/sidetree-go/pkg/commitment"
 	"github.com/trustbloc/sidetree-go/pkg/jws"
@@ -192,6 +193,18 @@ func c04Chain(c *fw.Case) {
 	proto.KeyAlgorithms = append(proto.KeyAlgorithms, "P-521")
 	proto.SignatureAlgorithms = append(proto.SignatureAlgorithms, "ES512")
 	st := sut.SharedStack(proto)
+	// anchored operations are judged without the request-time validators: a quarter of the chains is read by a parser whose
+	// anchor-origin and anchor-time validators refuse everything - reveal values and commitments are reported all the same
+	hostile := &hostileValidators{}
+	if c.Idx%4 == 3 {
+		st = sut.NewStack(proto, operationparser.WithAnchorOriginValidator(hostile), operationparser.WithAnchorTimeValidator(hostileTime{hostile}))
+		c.Count("chains-read-with-refusing-validators", 1)
+		defer func() {
+			if hostile.calls > 0 {
+				c.Failf("request-time-validators-consulted-for-anchored-operations", map[string]interface{}{"calls": hostile.calls}, "GetRevealValue / GetCommitment consulted request-time validators %d times", hostile.calls)
+			}
+		}()
+	}
 	nonceMode := c.Idx / len(gen.AllKeyTypes) % 4 // 0: bare keys, 1: every key carries a nonce, 2/3: successors reuse key material and differ in the nonce only
 	patches := []interface{}{gen.PAddKeys(gen.RandDocKey(r, "key1"))}
 	cs, ch := gen.NewChainCreate(r, code, keyType, patches)
@@ -273,6 +286,19 @@ func c04Chain(c *fw.Case) {
 			spec.RevealCode = updCode
 		} else {
 			spec.RevealCode = recCode
+		}
+		if r.Chance(1, 3) {
+			spec.AnchorFrom, spec.AnchorUntil = int64(r.Range(1, 1000)), int64(r.Range(1000, 2000))
+		}
+		if r.Chance(1, 4) {
+			// the signed data may also name the reveal value (an optional member of the signed-data models): still well-formed
+			own := spec
+			spec.PayloadEdit = func(p map[string]interface{}) {
+				k := own.Signer.JWK()
+				if rv, err := oracle.RevealValue(own.RevealCode, gen.StructJWK(k)); err == nil {
+					p["revealValue"] = rv
+				}
+			}
 		}
 		b := spec.Build(r)
 		seq += kind[:1]
